@@ -118,6 +118,13 @@ def make_sigma(rng, g, e):
     subs = [s for s in scan.subterms(e) if isinstance(s, (p.Variable, p.Subscript, p.Lookup))]
     sigma = []
     used = set()
+    # a NAME key that coincides with the attribute name of a look-up in e (or with a keyword name)
+    # must not touch the look-up: only variables are found by name
+    lookups = [s for s in subs if isinstance(s, p.Lookup)]
+    if lookups and rng.random() < 0.5:
+        nm = rng.choice(lookups).name
+        used.add(("name", nm))
+        sigma.append(["name", nm, dumps(expr_to_sx(rng.choice([p.Variable("z"), 7, p.Variable("x") + 1])))])
     n = rng.randint(0, 3)
     for _ in range(n):
         k = rng.random()
@@ -151,6 +158,9 @@ class SubstStream(Stream):
         g = ExprGen(rng, cse=0.1, lists=False, foreign=False, malformed=0.01)
         for i in range(n):
             e = g.gen(rng.choice(["num", "num", "any", "bool", "int"]), rng.randint(1, 5))
+            if i % 5 == 0:
+                e = p.Sum((e, p.Lookup(p.Variable("r"), rng.choice(["x", "y", "u"])),
+                           p.Variable(rng.choice(["x", "y"]))))
             sigma = make_sigma(rng, g, e)
             env = rand_env(rng)
             base = {"sigma": sigma, "env": dumps(env_to_sx(env)), "cached": bool(i % 2)}
@@ -178,7 +188,15 @@ class SubstStream(Stream):
         if pl["cached"] and not impl.startswith("(err"):
             # object identity under the memoizing mapper depends on which of several equal
             # objects was cached first; the model has no object identities: compare trees only
-            return "ok" if model.rsplit(" ", 1)[0] == impl.rsplit(" ", 1)[0] else "diff"
+            if model.rsplit(" ", 1)[0] == impl.rsplit(" ", 1)[0]:
+                return "ok"
+            # the memo table may also return an ==-equal tree of another spelling (CSE(True) for
+            # CSE(1)): compare with Python ==
+            try:
+                m, i = loads(model), loads(impl)
+                return "ok" if sx_to_expr(m[0]) == sx_to_expr(i[0]) else "diff"
+            except Exception:
+                return "diff"
         return super().agree(model, impl, pl)
 
     def oracle(self, pl):
@@ -200,8 +218,14 @@ class SubstStream(Stream):
         if not touched and r is not e:
             zero_cse = any(isinstance(s, p.CommonSubexpression) and p.is_zero(s.child)
                            for s in scan.subterms(e) if isinstance(s, p.Expression))
-            subs = [s for s in scan.subterms(e) if isinstance(s, p.Expression)]
-            dup = any(a is not b and a == b for i, a in enumerate(subs) for b in subs[:i])
+            subs = [s for s in scan.subterms(e) if not isinstance(s, (list, dict))]
+
+            def _eq(a, b):
+                try:
+                    return bool(a == b)
+                except Exception:
+                    return False
+            dup = any(a is not b and _eq(a, b) for i, a in enumerate(subs) for b in subs[:i])
             key = ("cse-zero-child-collapses" if zero_cse
                    else "cached-duplicate-subtree-rebuilt" if (pl["cached"] and dup)
                    else "untouched-not-identical")
@@ -213,6 +237,16 @@ class SubstStream(Stream):
         got = outcome(lambda: pyeval(r, env))
         ok = got[0] == "ok" and loosely_equal(want[1], got[1])
         if not ok:
+            try:
+                collapses = any(
+                    isinstance(s_, p.CommonSubexpression)
+                    and p.is_zero(run_subst(s_.child, pl["sigma"], False))
+                    for s_ in scan.subterms(e))
+            except Exception:
+                collapses = False
+            if collapses:
+                return Failure("cse-zero-child-collapses", f"a CSE whose substituted child is falsy "
+                               f"collapses to 0: {got!r} vs {want!r}", pl)
             return Failure("subst-value", f"substituted tree gives {got!r}, original in updated "
                            f"environment gives {want!r}", pl)
         return None
